@@ -11,7 +11,7 @@ from .rvc_instructions import rvcisa
 from .rvf_instructions import rvfisa, movf
 from .rvfx_instructions import rvfxisa
 from .registers import RiscvRegister, RiscvFRegister, gdb_registers, Register
-from .registers import R0, LR, SP, FP
+from .registers import R0, LR, SP, FP, R5
 from .registers import R10, R11, R12
 from .registers import R13, R14, R15, R16, R17
 from .registers import PC
@@ -25,6 +25,7 @@ from ..stack import FramePointerLocation
 from ..data_instructions import data_isa
 from ...binutils.assembler import BaseAssembler
 from .instructions import dcd, Addi, Movr, Bl, Sw, Lw, Blr, Lb, Sb
+from .instructions import Li, Addr, Subr
 from .rvc_instructions import CSwsp, CLwsp, CBl, CJr, CBlr, CMovr
 from .rvc_instructions import CAddi16sp, CAddi4spn
 from . import instructions
@@ -201,12 +202,40 @@ class RiscvArch(Architecture):
             yield Sb(tmp, idx, dst)
 
     def peephole(self, frame):
+        """Resolve the offsets of frame locations.
+
+        The frame pointer is at the bottom of the frame and the offsets of
+        the locations count from the top, so they can be filled in only
+        now that the size of the frame is known.
+        """
         newinstructions = []
         for ins in frame.instructions:
             if hasattr(ins, "fprel") and ins.fprel:
-                ins.offset += round_up(frame.stacksize + 8) - 8
+                offset = ins.offset + round_up(frame.stacksize + 8) - 8
+                if isinsrange(12, offset):
+                    ins.offset = offset
+                else:
+                    # Too far for an immediate, take the address in the
+                    # scratch register:
+                    newinstructions.append(Li(R5, offset))
+                    newinstructions.append(Addr(R5, ins.rs1, R5))
+                    ins.rs1 = R5
+                    ins.offset = 0
             newinstructions.append(ins)
         return newinstructions
+
+    def gen_adjust_sp(self, amount):
+        """Add amount to the stack pointer"""
+        if self.has_option("rvc") and isinsrange(10, amount):
+            yield CAddi16sp(amount)
+        elif isinsrange(12, amount):
+            yield Addi(SP, SP, amount)
+        elif amount < 0:
+            yield Li(R5, -amount)
+            yield Subr(SP, SP, R5)
+        else:
+            yield Li(R5, amount)
+            yield Addr(SP, SP, R5)
 
     def gen_call(self, frame, label, args, rv):
         """Implement actual call and save / restore live registers"""
@@ -334,10 +363,7 @@ class RiscvArch(Architecture):
         # Label indication function:
         yield Label(frame.name)
         ssize = round_up(frame.stacksize + 8)
-        if self.has_option("rvc") and isinsrange(10, -ssize):
-            yield CAddi16sp(-ssize)  # Reserve stack space
-        else:
-            yield Addi(SP, SP, -ssize)  # Reserve stack space
+        yield from self.gen_adjust_sp(-ssize)  # Reserve stack space
 
         if self.has_option("rvc"):
             yield CSwsp(LR, 4)
@@ -442,10 +468,7 @@ class RiscvArch(Architecture):
             yield Lw(FP, 0, SP)
 
         ssize = round_up(frame.stacksize + 8)
-        if self.has_option("rvc") and isinsrange(10, ssize):
-            yield CAddi16sp(ssize)  # Free stack space
-        else:
-            yield Addi(SP, SP, ssize)  # Free stack space
+        yield from self.gen_adjust_sp(ssize)  # Free stack space
 
         # Return
         if self.has_option("rvc"):
